@@ -34,6 +34,9 @@ func gen(r *hlib.Rand, n int, tier, profile string, emit func(string, ...any)) {
 		for i := 0; i < k; i++ {
 			pi := r.Intn(len(w.Peers))
 			p, incoming := w.GenPacket(r, w.Peers[pi])
+			if pr, ok := w.GenProbe(r); ok && r.Chance(1, 3) {
+				pi, p, incoming = pr.Peer, pr.P, pr.Incoming
+			}
 			if profile == "C17" && r.Chance(1, 3) {
 				// spoofing: another peer's address, an edge of somebody's network, an address of this node
 				switch r.Intn(3) {
